@@ -537,6 +537,102 @@ def spec_h11c_connect(ck):
     ck.bounds['h11c_connect'] = 'one upstream reply: any status code, any Session-Id header value, any feature; request writer / response reader summarised'
 
 
+def spec_connect_line_roundtrip(ck):
+    """the CONNECT request an http / quic connector sends: the request target and the Host header it writes for the connection's
+    destination parse back (with the parser the next hop runs on them: TargetAddress::from_str) to that same destination -- for a
+    domain name (one that is not an IP literal and holds no colon), an IPv4 and an IPv6 socket address, any port.  Text is modelled
+    by fmtmodel (ropes of tagged pieces); the repository's own Display impl, HttpRequest::new / with_header and from_str run."""
+    import fmtmodel
+    from specs.codec import sym_target, ta_eq
+    fn = ck.find(lambda: ck.db.free('h11c_connect'), 'h11c_connect')
+    parse = ck.find(lambda: ck.db.method('TargetAddress', 'from_str', trait='FromStr'), 'TargetAddress::from_str')
+    ck.find(lambda: ck.db.method('TargetAddress', 'fmt', trait='Display'), 'TargetAddress::fmt (Display)')
+    if fn is None or parse is None:
+        return
+    ex = ck.engine(loop_bound=4, call_depth=10)
+    ex.benign_havoc = harness.IRRELEVANT
+    ex.no_inline = [re.compile(r'HttpResponse::read_from|frames_from_stream|Context::')]
+    fmtmodel.install(ex)
+    st = State()
+    tgt, parts = sym_target(ex, st, 'destination', allow_unknown=False, maxlen=12)
+    fmtmodel.tag(parts['host'], ('domain',))
+    host = parts['host']
+    # a domain name: not empty, no colon, and not an IP literal -- it holds a letter g..z somewhere (stated bound)
+    ex.assume(st, host.len != BV(0, 64))
+    for i in range(12):
+        ex.assume(st, z3.Implies(z3.ULT(BV(i, 64), host.len), z3.And(host.at(i) != BV(0x3a, 8), host.at(i) != BV(0x5b, 8), host.at(i) != BV(0x5d, 8))))
+    ex.assume(st, z3.Or([z3.And(z3.ULT(BV(i, 64), host.len), z3.UGE(host.at(i), BV(0x67, 8)), z3.ULE(host.at(i), BV(0x7a, 8))) for i in range(12)]))
+    feat = z3.BitVec('feature', 64)
+    vn = ex.si.enums['Feature']
+    ex.assume(st, z3.ULT(feat, BV(len(vn), 64)))
+    rq_fields = ck.si.structs.get('HttpRequest', ['method', 'resource', 'version', 'headers'])
+
+    def write_to(ctx):
+        rq = ctx.ex.deref(ctx.st, ctx.args[0])
+        ctx.st.trace.append(('request', rq))
+        return Future('sym_result', ['upstream_write'])
+    for rx, f in ((r'HttpRequest::write_to$', write_to), (r'Context::feature$', lambda ctx: Agg('Feature', {}, feat, {}, vn)),
+                  (r'HttpResponse::read_from$', lambda ctx: Future('pending-forever', [])),
+                  (r'Context::target$', lambda ctx: tgt),
+                  (r'Context::extra$', lambda ctx: C.mk_option(ctx.ex, Ref(ctx.st.alloc(Bytes.symbolic('extra', 'str')), ())))):
+        ex.overrides.append((re.compile(rx), f))
+    ex.inputs = dict(parts, feature=feat)
+    args = [Opaque('IOBufStream', 'server'), Ref(st.alloc(Opaque('RwLock<Context>', 'ctx')), ()), Opaque('SocketAddr', 'l'), Opaque('SocketAddr', 'r'),
+            Ref(st.alloc(Bytes.from_py(b'inline', 'str')), ()), Opaque('FrameFn', 'ff')]
+    outs = run_async(ex, st, fn, args)
+    seen = 0
+    # the response never arrives in this model (the request is the subject): a path that stops pending on it is complete
+    allf = [o for o, _ in outs if not (o.status == 'cut' and any('did not return Ready' in n for n in o.notes))]
+    done = set()
+    for o, r in outs:
+        rqs = [e[1] for e in o.trace if e[0] == 'request']
+        if not rqs or not isinstance(rqs[0], Agg):
+            continue
+        rq = rqs[0]
+        res = rq.fields.get(rq_fields.index('resource'))
+        hdrs = rq.fields.get(rq_fields.index('headers'))
+        texts = [('request-target', res)]
+        if isinstance(hdrs, SeqV) and hdrs.items:
+            for h in hdrs.items:
+                hv = ex.deref(o, h) if isinstance(h, Ref) else h
+                if isinstance(hv, Agg) and isinstance(hv.fields.get(0), Bytes) and hv.fields[0].conc is not None \
+                        and bytes(concrete(x) for x in hv.fields[0].conc) == b'Host':
+                    texts.append(('host-header', hv.fields[1]))
+        for what, text in texts:
+            if not isinstance(text, Bytes):
+                continue
+            key = (id(text), what)
+            if key in done:
+                continue
+            done.add(key)
+            s2 = o.fork()
+            s2.frames = []
+            s2.status = 'running'
+            for q in ex.call_fn(s2, parse, [Ref(s2.alloc(text), ())]):
+                allf.append(q)
+                if q.status != 'returned' or not isinstance(q.ret, Agg):
+                    continue
+                seen += 1
+                ok, val = _ok_payload(q.ret)
+                same = ta_eq(ex, val, tgt) if isinstance(val, Agg) else z3.BoolVal(False)
+                ex.prove(q, 'C03/http-connect/%s-parses-back-to-the-destination' % what, z3.And(ok, same))
+    if not seen:
+        ck.add('C03/http-connect/reachability', 'vacuous', 'no CONNECT request was written and parsed back in the model')
+    for f in ex.findings:
+        if not hasattr(f, 'target'):
+            f.target = 'connect line'
+    ck.plans.append(_connect_line_replay_plan)
+    ck.absorb(ex, 'h11c_connect (request text)', allf)
+    ck.bounds['connect-line'] = 'destination: a domain of 1..12 bytes (no colon or bracket, some letter g..z), any IPv4 / IPv6 socket address, any port; every feature'
+
+
+def _connect_line_replay_plan(ob):
+    if (ob.target or '') != 'connect line' or not ob.label.startswith('C03/http-connect/'):
+        return None
+    cases = [{'driver': 'connect_line', 'args': {'target': t, 'udp': u}} for t in ('[2001:db8::1]:443', '[::1]:80', '1.2.3.4:80', 'example.org:443') for u in (False, True)]
+    return 'h11c', cases, lambda o: o.get('request_read') is True and (o.get('target_parses_back') is False or o.get('host_parses_back') is False)
+
+
 def _h11c_replay_plan(ob):
     if (ob.target or '') != 'h11c_connect':
         return None
